@@ -82,6 +82,7 @@ type Agg struct {
 	Viols      map[string]*Viol   `json:"viols"` // by class: smallest first
 	Known      map[string]*Viol   `json:"known"` // known findings hit, by finding id
 	Samples    []any              `json:"samples"`
+	Examples   []any              `json:"examples"` // explicit, structured samples (preferred in the evidence)
 	Levels     []string           `json:"levels"` // levels completed by this worker
 	Notes      []string           `json:"notes"`
 }
@@ -132,8 +133,13 @@ func (a *Agg) merge(b *Agg) {
 	mergeV(a.Viols, b.Viols)
 	mergeV(a.Known, b.Known)
 	for _, s := range b.Samples {
-		if len(a.Samples) < 12 {
+		if len(a.Samples) < 8 {
 			a.Samples = append(a.Samples, s)
+		}
+	}
+	for _, s := range b.Examples {
+		if len(a.Examples) < 10 {
+			a.Examples = append(a.Examples, s)
 		}
 	}
 	a.Notes = append(a.Notes, b.Notes...)
@@ -158,6 +164,7 @@ type Ctx struct {
 	level    string
 	stopped  bool
 	expensive int
+	nexamples int
 
 	curUnit  atomic.Int64
 	curStart atomic.Int64 // process CPU time (ns) when the unit started, +1; 0 = idle
@@ -287,8 +294,9 @@ func (c *Ctx) Max(k string, v int64) {
 }
 func (c *Ctx) Note(s string) { c.agg.Notes = append(c.agg.Notes, s) }
 func (c *Ctx) Sample(s any) {
-	if len(c.agg.Samples) < 6 {
-		c.agg.Samples = append(c.agg.Samples, s)
+	if c.nexamples < 3 {
+		c.nexamples++
+		c.agg.Examples = append(c.agg.Examples, s)
 	}
 }
 
@@ -467,6 +475,7 @@ type shardState struct {
 	done     bool
 	stopped  bool
 	expensive int
+	nexamples int
 	total    int64
 	levels   []string
 	restarts int
@@ -690,6 +699,11 @@ func checkMain(args []string) {
 		rec["class"] = v.Class
 		rec["desc"] = v.Desc
 		rec["cases_in_class"] = v.Count
+		if src, ok := rec["src"].(string); ok {
+			if text, ok := rec["text"].(string); ok {
+				rec["go_test"] = fmt.Sprintf("func TestReplay(t *testing.T) {\n\t// %%s\n\tv, err := libvore.Compile(%%q)\n\tif err != nil {\n\t\tt.Fatal(err)\n\t}\n\tfor _, m := range v.Run(%%q) {\n\t\tt.Logf(\"%%%%d [%%%%d,%%%%d) %%%%q repl=%%%%v vars=%%%%v\", m.MatchNumber, m.Offset.Start, m.Offset.End, m.Value, m.Replacement, m.Variables.ToGo())\n\t}\n\tt.Error(\"compare the logged matches with the expectation in the comment above\")\n}\n", strings.ReplaceAll(v.Desc, "\n", " "), src, text)
+			}
+		}
 		b, _ := json.MarshalIndent(rec, "", " ")
 		sum := sha1.Sum(b)
 		path := filepath.Join(verifRoot, "replays", id, hex.EncodeToString(sum[:6])+".json")
@@ -702,7 +716,7 @@ func checkMain(args []string) {
 		"evaluations":         total.Evals,
 		"distinct_nontrivial": total.Nontrivial,
 		"rule":                ck.Rule,
-		"samples":             total.Samples,
+		"samples":             append(append([]any{}, total.Examples...), total.Samples...),
 		"units":               total.Units,
 		"exhaustive":          exhaustive,
 		"levels_completed":    completed,
@@ -711,7 +725,7 @@ func checkMain(args []string) {
 		"maxima":              total.Maxes,
 		"shards":              n,
 		"budget_s":            budget,
-		"known_findings_hit":  knownIDs,
+		"known_findings_hit":  append([]string{}, knownIDs...),
 		"violation_classes":   nviol,
 	}
 	for s, m := range total.Sets {
@@ -735,7 +749,7 @@ func checkMain(args []string) {
 	if ck.Post != nil {
 		ck.Post(total, cov)
 	}
-	if len(total.Samples) == 0 {
+	if len(total.Samples)+len(total.Examples) == 0 {
 		cov["samples"] = []any{"(no unit executed)"}
 	}
 	ev := map[string]any{
